@@ -266,6 +266,24 @@ func (c18Engine) Exec(c *Case, job *Job) *Result {
 		j2 := &Job{ID: job.ID, Prop: "C18", Seed: c.Seed, Tier: job.Tier, Case: c, Rep: 1, Sample: job.Sample}
 		r2, err := runFresh(j2)
 		if err != nil {
+			if cd, ok := err.(*childDeath); ok {
+				// C18 owns process deaths of concurrent runs: same signature as the driver gives
+				sig := "process-death"
+				if strings.Contains(cd.stderr, "fatal error: stack overflow") {
+					sig = "process-death: stack overflow in [" + strings.Join(recursiveFrames(cd.stderr, 3), " | ") + "]"
+				} else {
+					for _, l := range strings.Split(cd.stderr, "\n") {
+						if strings.HasPrefix(l, "fatal error:") || strings.HasPrefix(l, "panic:") {
+							sig = "process-death: " + l
+							break
+						}
+					}
+				}
+				r := &Result{}
+				r.violate("process-death", sig, "the cold-start process executing the concurrent run died:\n"+lastLines(cd.stderr, 30))
+				r.count("scenario:cold-start", 1)
+				return r
+			}
 			return &Result{Verdict: "harness-error", Msg: err.Error()}
 		}
 		r2.count("scenario:cold-start", 1)
